@@ -80,3 +80,42 @@ Definition run_pfx (args : list bytes) : bytes :=
              end
   | _ => ERR
   end.
+
+(* ---- relativize / curie front ends ---- *)
+From RK Require Import Iri3986 Relativize Curie.
+
+Definition run_rel (args : list bytes) : bytes :=
+  match args with
+  | [b; v] => match xstr b, xstr v with
+              | Some b', Some v' => opt_out xout (relativize (new_base b') v')
+              | _, _ => ERR
+              end
+  | _ => ERR
+  end.
+
+Definition curie_out (c : curie) : bytes :=
+  bool_byte (cu_safe c) ++ [44%N] ++ bool_byte (cu_default c) ++ [44%N] ++ xout (cu_prefix c) ++ [44%N] ++ xout (cu_ref c).
+
+Definition parse_bool (l : bytes) : option bool :=
+  match l with [49%N] => Some true | [48%N] => Some false | _ => None end.
+
+(* cur <safe> <xdefault> <defaultEmpty> <mappings> <xv> *)
+Definition run_cur (args : list bytes) : bytes :=
+  match args with
+  | [sf; d; de; ms; v] =>
+      match parse_bool sf, xstr d, parse_bool de, opt_map_all parse_mapping (items 44 ms), xstr v with
+      | Some sf', Some d', Some de', Some ms', Some v' =>
+          let s := Scope sf' d' de' (pm_add pm_empty ms') in
+          let c := compact_curie s v' in
+          bool_byte (cu_safe c) ++ [44%N] ++ bool_byte (cu_default c) ++ [44%N] ++ xout (cu_ref c)
+            ++ [124%N] ++ opt_out xout (expand_curie s c)
+      | _, _, _, _, _ => ERR
+      end
+  | _ => ERR
+  end.
+
+Definition run_pcur (args : list bytes) : bytes :=
+  match args with
+  | [v] => match xstr v with Some v' => opt_out curie_out (parse_curie v') | None => ERR end
+  | _ => ERR
+  end.
